@@ -354,7 +354,7 @@ example : WellFormed treeByCon = true ∧ argsByCon.fits (takes treeByCon) = tru
 def treeDeep : Ev :=
   .votingSystem (.multistage [
     .byConstituency (.tieBreaking haT inputOrderT) (.ev haT) (some (thrT 3)),
-    .preApportioned (.byConstituency (.conditioned (thrT 1) haT 1) .none Option.none) (.int 1)] 2)
+    .preApportioned (.byConstituency (.conditioned (thrT 1) haT 1) .none Option.none) (.int 5)] 2)
 def argsDeep : Args :=
   { votes := nested [(100, [(0, 6), (1, 3), (2, 1)]), (101, [(0, 4), (1, 4)])], n := some (.num 4)
     prev := some (nested [(101, [(1, 1)])]) }
